@@ -245,6 +245,9 @@ func (ctrl *DefaultController) Import(ctx context.Context, stream chan ledger.Lo
 	}
 
 	for log := range stream {
+		if err := checkImportedLog(log); err != nil {
+			return NewErrImport(err)
+		}
 		if lastLogID != nil && *log.ID <= *lastLogID {
 			return NewErrImport(fmt.Errorf("log %d already exists", *log.ID))
 		}
@@ -265,6 +268,10 @@ func (ctrl *DefaultController) Import(ctx context.Context, stream chan ledger.Lo
 					errors.Is(err, ledgerstore.ErrConcurrentTransaction{}):
 					return NewErrImport(errors.New("concurrent transaction occur" +
 						"red, cannot import the ledger"))
+				case errors.Is(err, ErrNotFound) ||
+					errors.Is(err, ledgerstore.ErrTransactionReferenceConflict{}):
+					// the log refers to something the previous logs of the stream did not create
+					return NewErrImport(fmt.Errorf("importing log %d: %w", *log.ID, err))
 				}
 				return fmt.Errorf("importing log %d: %w", *log.ID, err)
 			}
@@ -281,6 +288,37 @@ func (ctrl *DefaultController) Import(ctx context.Context, stream chan ledger.Lo
 	}
 
 	return err
+}
+
+// checkImportedLog checks that a log read from an import stream, which is client input,
+// carries the fields importLog dereferences.
+func checkImportedLog(log ledger.Log) error {
+	if log.ID == nil {
+		return errors.New("log without id")
+	}
+	checkTransaction := func(tx ledger.Transaction) error {
+		if tx.ID == nil {
+			return fmt.Errorf("log %d: transaction without id", *log.ID)
+		}
+		for i, posting := range tx.Postings {
+			if posting.Amount == nil {
+				return fmt.Errorf("log %d: posting %d without amount", *log.ID, i)
+			}
+		}
+		return nil
+	}
+	switch payload := log.Data.(type) {
+	case ledger.CreatedTransaction:
+		return checkTransaction(payload.Transaction)
+	case ledger.RevertedTransaction:
+		if payload.RevertedTransaction.ID == nil || payload.RevertedTransaction.RevertedAt == nil {
+			return fmt.Errorf("log %d: reverted transaction without id or revert date", *log.ID)
+		}
+		return checkTransaction(payload.RevertTransaction)
+	case nil:
+		return fmt.Errorf("log %d: no payload", *log.ID)
+	}
+	return nil
 }
 
 func (ctrl *DefaultController) importLog(ctx context.Context, store Store, log ledger.Log) error {
